@@ -94,6 +94,7 @@ def perDna (W : Nat → Bool) (t : Tmpl) (d : DNA) : J :=
   let dec := decode W t d
   .obj [("dna", dnaToJ d),
         ("valid", .bool (validG false (dnaSpec W t) d)),
+        ("strict", .bool (validG true (dnaSpec W t) d)),
         ("dec", resT dec),
         ("enc", match dec with
           | .ok v => resD (encode W t v)
